@@ -113,8 +113,20 @@ deriving DecidableEq, Repr
 inductive Res
   | ok
   | err (c : ErrCode)
-  | panic
+  | panic (c : PanicCause)
 deriving DecidableEq, Repr
+
+def Res.isPanic : Res → Bool
+  | .panic _ => true
+  | _ => false
+
+/-- outcomes after which the connection is gone and the handler is not used any more: a panic, or one of
+    the internal errors of `detectAndRemoveAckedPackets` that leave the ACK half processed -/
+def Res.fatal : Res → Bool
+  | .panic _ => true
+  | .err .notFound => true
+  | .err .bugWrongPacket => true
+  | _ => false
 
 structure Out where
   res : Res := .ok
@@ -249,10 +261,10 @@ def Space.pop (sp : Space) (nts : PN) : Option (Space × PN × List PN) :=
 /-- `PopPacketNumber` -/
 def State.popPacketNumber (s : State) (lvl : Level) (nts : PN) : State × Out :=
   match s.getSpace lvl with
-  | none => (s, { res := .panic })
+  | none => (s, { res := .panic .nilSpace })
   | some sp =>
     match sp.pop nts with
-    | none => (s, { res := .panic })
+    | none => (s, { res := .panic .nonSequential })
     | some (sp', pn, sk) => (s.setSpace lvl sp', { pn := pn, skipped := sk })
 
 /-- `SentPacket` -/
@@ -260,25 +272,25 @@ def State.sentPacket (s : State) (env : Env) (t : Time) (pn largestAcked : PN) (
     (lvl : Level) (size : Int) (mtu probe : Bool) : State × Res :=
   let s := { s with bytesSent := s.bytesSent + size }
   match s.getSpace lvl with
-  | none => (s, .panic)
+  | none => (s, .panic .nilSpace)
   | some sp =>
     let sp := { sp with largestSent := pn }
     let p : Packet := { sendTime := t, level := lvl, length := size, frames := frames, sframes := sframes,
                         largestAcked := largestAcked, mtuProbe := mtu, pathProbe := probe }
     if probe then
       match sp.hist.sentPathProbePacket pn p with
-      | none => (s.setSpace lvl sp, .panic)
+      | none => (s.setSpace lvl sp, .panic .nonSequential)
       | some h => ((s.setSpace lvl { sp with hist := h }).setTimer env t, .ok)
     else if p.ackEliciting then
       let sp := { sp with lastAETime := t }
       let s := { s with bytesInFlight := s.bytesInFlight + size,
                         numProbesToSend := if s.numProbesToSend > 0 then s.numProbesToSend - 1 else s.numProbesToSend }
       match sp.hist.sentPacket pn { p with inFlight := true } with
-      | none => (s.setSpace lvl sp, .panic)
+      | none => (s.setSpace lvl sp, .panic .nonSequential)
       | some h => ((s.setSpace lvl { sp with hist := h }).setTimer env t, .ok)
     else
       match sp.hist.sentPacket pn p with
-      | none => (s.setSpace lvl sp, .panic)
+      | none => (s.setSpace lvl sp, .panic .nonSequential)
       | some h =>
         let s := s.setSpace lvl { sp with hist := h }
         (if !s.peerCompleted then s.setTimer env t else s, .ok)
@@ -300,64 +312,72 @@ def advance (pn : PN) : List Range → List Range
   | l => l
 
 inductive CollectRes
-  | done (probes : List (PN × Packet)) (acc : List (PN × Option Packet))
+  | done (probes stash : List (PN × Packet)) (acc : List PN)
   /-- "BUG: ackhandler would have acked wrong packet" -/
-  | bug (probes : List (PN × Packet)) (acc : List (PN × Option Packet))
+  | bug (probes stash : List (PN × Packet)) (acc : List PN)
 deriving Repr
 
-/-- first loop of `detectAndRemoveAckedPackets`. An entry `(pn, none)` stands for the `*packet` stored at
-    `pn`; `(pn, some p)` for a path probe taken out of `pathProbePackets`. -/
+/-- first loop of `detectAndRemoveAckedPackets`.  `acc` are the packet numbers appended to `h.ackedPackets`;
+    an entry stands for the `*packet` stored at that number, except for path probes, whose real packet was
+    taken out of `pathProbePackets` and is kept in `stash` under the same number. -/
 def collect (multi : Bool) (lowest largest : PN) :
-    PN → List (Option Packet) → List Range → List (PN × Packet) → List (PN × Option Packet) → CollectRes
-  | _, [], _, probes, acc => .done probes acc
-  | pn, none :: rest, rem, probes, acc => collect multi lowest largest (pn + 1) rest rem probes acc
-  | pn, some p :: rest, rem, probes, acc =>
-    if pn < lowest then collect multi lowest largest (pn + 1) rest rem probes acc
-    else if pn > largest then .done probes acc
+    PN → List (Option Packet) → List Range → List (PN × Packet) → List (PN × Packet) → List PN → CollectRes
+  | _, [], _, probes, stash, acc => .done probes stash acc
+  | pn, none :: rest, rem, probes, stash, acc => collect multi lowest largest (pn + 1) rest rem probes stash acc
+  | pn, some p :: rest, rem, probes, stash, acc =>
+    if pn < lowest then collect multi lowest largest (pn + 1) rest rem probes stash acc
+    else if pn > largest then .done probes stash acc
     else
       let rem := if multi then advance pn rem else rem
       let (below, above) : Bool × Bool := match multi, rem with
         | true, r :: _ => (decide (pn < r.1), decide (pn > r.2))
         | _, _ => (false, false)
-      if below then collect multi lowest largest (pn + 1) rest rem probes acc
-      else if above then .bug probes acc
+      if below then collect multi lowest largest (pn + 1) rest rem probes stash acc
+      else if above then .bug probes stash acc
       else if p.pathProbe then
         match removeProbe pn probes with
-        | (some q, probes') => collect multi lowest largest (pn + 1) rest rem probes' (acc ++ [(pn, some q)])
-        | (none, probes') => collect multi lowest largest (pn + 1) rest rem probes' acc
-      else collect multi lowest largest (pn + 1) rest rem probes (acc ++ [(pn, none)])
+        | (some q, probes') => collect multi lowest largest (pn + 1) rest rem probes' (stash ++ [(pn, q)]) (acc ++ [pn])
+        | (none, probes') => collect multi lowest largest (pn + 1) rest rem probes' stash acc
+      else collect multi lowest largest (pn + 1) rest rem probes stash (acc ++ [pn])
 
-/-- second loop of `detectAndRemoveAckedPackets`: callbacks, then `history.Remove`.  The packet whose
-    frames are reported is the one stored at `pn` (the Go code holds the same pointer). -/
-def ackedLoop (lvl : Level) :
-    List (PN × Option Packet) → Hist → List Ev → List (PN × Packet) → Hist × List Ev × List (PN × Packet) × Res
-  | [], h, evs, done => (h, evs, done, .ok)
-  | (pn, saved) :: rest, h, evs, done =>
+/-- second loop of `detectAndRemoveAckedPackets`: callbacks, then `history.Remove`.  The packet whose frames
+    are reported is the one stored at `pn` (the Go code holds that pointer) — or, when that is the
+    placeholder of a path probe, the real probe packet kept under `pn`.
+    Returns (history, unused stash, callbacks, acked packets, outcome). -/
+def ackedLoop (lvl : Level) : List PN → Hist → List (PN × Packet) → List Ev → List (PN × Packet) →
+    Hist × List (PN × Packet) × List Ev × List (PN × Packet) × Res
+  | [], h, stash, evs, done => (h, stash, evs, done, .ok)
+  | pn :: rest, h, stash, evs, done =>
     match h.remove pn with
-    | .panic => (h, evs, done, .panic)
-    | .notFound => (h, evs, done, .err .notFound)
+    | .panic c => (h, stash, evs, done, .panic c)
+    | .notFound => (h, stash, evs, done, .err .notFound)
     | .ok h' removed =>
-      let p := saved.getD removed
+      let (p, stash') : Packet × List (PN × Packet) :=
+        if removed.pathProbe then
+          match removeProbe pn stash with
+          | (some q, st') => (q, st')
+          | (none, st') => (removed, st')
+        else (removed, stash)
       let ign := if p.largestAcked ≠ invalidPN ∧ lvl = .oneRTT then [Ev.ignore (p.largestAcked + 1)] else []
-      ackedLoop lvl rest h' (evs ++ ign ++ p.allFrames.map Ev.acked) (done ++ [(pn, p)])
+      ackedLoop lvl rest h' stash' (evs ++ ign ++ p.allFrames.map Ev.acked) (done ++ [(pn, p)])
 
 structure LossAcc where
   hist : Hist
   lossTime : Time := 0
   bfl : Int
   evs : List Ev := []
-  panic : Bool := false
+  panic : Option PanicCause := none
 deriving Repr
 
 /-- body of the loop of `detectLostPackets` for the packet `p` stored at `pn` -/
 def lossStep (largestAcked lostSendTime lossDelay : Int) (pn : PN) (p : Packet) (a : LossAcc) : LossAcc :=
   if p.sendTime ≤ lostSendTime ∨ a.hist.difference largestAcked pn ≥ packetThreshold then
     match a.hist.declareLost pn with
-    | .panic => { a with panic := true }
+    | .panic c => { a with panic := some c }
     | .ok h' =>
       if !p.pathProbe ∧ p.ackEliciting then
         match removeBif a.bfl p with
-        | none => { a with hist := h', panic := true }
+        | none => { a with hist := h', panic := some .negativeBytesInFlight }
         | some b => { a with hist := h', bfl := b, evs := a.evs ++ p.allFrames.map Ev.lost }
       else { a with hist := h' }
   else if a.lossTime = 0 then { a with lossTime := p.sendTime + lossDelay }
@@ -366,7 +386,7 @@ def lossStep (largestAcked lostSendTime lossDelay : Int) (pn : PN) (p : Packet) 
 def lossLoop (largestAcked lostSendTime lossDelay : Int) : Nat → PN → LossAcc → LossAcc
   | 0, _, a => a
   | n + 1, pn, a =>
-    if a.panic then a
+    if a.panic.isSome then a
     else match a.hist.lookup pn with
       | none => lossLoop largestAcked lostSendTime lossDelay n (pn + 1) a
       | some p =>
@@ -378,10 +398,10 @@ def lossLoop (largestAcked lostSendTime lossDelay : Int) : Nat → PN → LossAc
 def lossDelayOf (env : Env) : Int :=
   max (timeThresholdNum * max env.latestRTT env.smoothedRTT / timeThresholdDen) timerGranularity
 
-/-- `detectLostPackets`: (state, callbacks, panicked) -/
-def State.detectLostPackets (s : State) (env : Env) (now : Time) (lvl : Level) : State × List Ev × Bool :=
+/-- `detectLostPackets`: (state, callbacks, panic) -/
+def State.detectLostPackets (s : State) (env : Env) (now : Time) (lvl : Level) : State × List Ev × Option PanicCause :=
   match s.getSpace lvl with
-  | none => (s, [], true)
+  | none => (s, [], some .nilSpace)
   | some sp =>
     let lossDelay := lossDelayOf env
     let a := lossLoop sp.largestAcked (now - lossDelay) lossDelay sp.hist.packets.length sp.hist.first
@@ -428,33 +448,40 @@ def State.receivedAck (s : State) (env : Env) (ranges : List Range) (lvl : Level
       else if lvl = .oneRTT ∧ sp.hist.skipped.any (acksPacket ranges lowest largest) then
         (s, { res := .err .ackSkipped })
       else
-        match collect (ranges.length > 1) lowest largest sp.hist.first sp.hist.packets ranges.reverse sp.hist.probes [] with
-        | .bug probes acc =>
+        match collect (ranges.length > 1) lowest largest sp.hist.first sp.hist.packets ranges.reverse sp.hist.probes [] [] with
+        | .bug probes stash acc =>
           ({ s.setSpace lvl { sp with hist := { sp.hist with probes := probes } } with ackedBuf := acc.length },
-           { res := .err .bugWrongPacket, disc := acc.flatMap fun x => (x.2.map Packet.allFrames).getD [] })
-        | .done probes acc =>
-          match ackedLoop lvl acc { sp.hist with probes := probes } [] [] with
-          | (h2, evs, _, .panic) =>
-            ({ s.setSpace lvl { sp with hist := h2 } with ackedBuf := acc.length }, { res := .panic, evs := evs })
-          | (h2, evs, _, .err e) =>
-            ({ s.setSpace lvl { sp with hist := h2 } with ackedBuf := acc.length }, { res := .err e, evs := evs })
-          | (h2, evs, removed, .ok) =>
+           { res := .err .bugWrongPacket, disc := probesFrames stash })
+        | .done probes stash acc =>
+          match ackedLoop lvl acc { sp.hist with probes := probes } stash [] [] with
+          | (h2, stash', evs, _, .panic c) =>
+            ({ s.setSpace lvl { sp with hist := h2 } with ackedBuf := acc.length },
+             { res := .panic c, evs := evs, disc := probesFrames stash' })
+          | (h2, stash', evs, _, .err e) =>
+            ({ s.setSpace lvl { sp with hist := h2 } with ackedBuf := acc.length },
+             { res := .err e, evs := evs, disc := probesFrames stash' })
+          | (h2, stash', evs, removed, .ok) =>
             if removed.isEmpty then (s, {})
             else
               let s := s.setSpace lvl { sp with hist := h2, largestAcked := max sp.largestAcked largest }
               let (s, evsL, panicL) := s.detectLostPackets env now lvl
-              if panicL then ({ s with ackedBuf := acc.length }, { res := .panic, evs := evs ++ evsL })
-              else
+              match panicL with
+              | some c => ({ s with ackedBuf := acc.length }, { res := .panic c, evs := evs ++ evsL, disc := probesFrames stash' })
+              | none =>
                 let (app, evsP, discP) := if lvl = .oneRTT then detectLostPathProbes s.app now else (s.app, [], [])
                 let s := { s with app := app }
                 match removeBifAll s.bytesInFlight removed with
-                | none => ({ s with ackedBuf := acc.length }, { res := .panic, evs := evs ++ evsL ++ evsP, disc := discP })
+                | none =>
+                  ({ s with ackedBuf := acc.length },
+                   { res := .panic .negativeBytesInFlight, evs := evs ++ evsL ++ evsP, disc := probesFrames stash' ++ discP })
                 | some b =>
                   let s := { s with bytesInFlight := b, ptoCount := if s.peerCompleted then 0 else s.ptoCount,
                                     numProbesToSend := 0 }
                   (s.setTimer env now,
-                   { evs := evs ++ evsL ++ evsP, disc := discP, flag := removed.any fun x => x.2.level = .oneRTT })
-  | _, _, _ => (s, { res := .panic })
+                   { evs := evs ++ evsL ++ evsP, disc := probesFrames stash' ++ discP,
+                     flag := removed.any fun x => x.2.level = .oneRTT })
+  | none, _, _ => (s, { res := .panic .nilSpace })
+  | _, _, _ => (s, { res := .panic .emptyAck })
 
 /-! ### OnLossDetectionTimeout -/
 
@@ -465,7 +492,7 @@ def State.timeoutBody (s : State) (env : Env) (now : Time) (nts : PN) : State ×
   let (lossTime, lvl) := s.getLossTimeAndSpace
   if lossTime ≠ 0 then
     let (s, evsL, panicL) := s.detectLostPackets env now lvl
-    (s, { res := if panicL then .panic else .ok, evs := evs0 ++ evsL, disc := disc0 })
+    (s, { res := match panicL with | some c => .panic c | none => .ok, evs := evs0 ++ evsL, disc := disc0 })
   else if s.bytesInFlight = 0 ∧ !s.peerCompleted then
     let s := { s with ptoCount := s.ptoCount + 1, numProbesToSend := s.numProbesToSend + 1 }
     if s.initial.isSome then ({ s with ptoMode := sendPTOInitial }, { evs := evs0, disc := disc0 })
@@ -475,7 +502,7 @@ def State.timeoutBody (s : State) (env : Env) (now : Time) (nts : PN) : State ×
     let (ptoTime, lvl) := s.getPTOTimeAndSpace env now
     if ptoTime = 0 then (s, { evs := evs0, disc := disc0 })
     else match s.getSpace lvl with
-      | none => (s, { res := .panic, evs := evs0, disc := disc0 })
+      | none => (s, { res := .panic .nilSpace, evs := evs0, disc := disc0 })
       | some ps =>
         if !ps.hist.hasOutstandingPackets ∧ !ps.hist.hasOutstandingPathProbes ∧ !s.peerCompleted then
           (s, { evs := evs0, disc := disc0 })
@@ -487,10 +514,10 @@ def State.timeoutBody (s : State) (env : Env) (now : Time) (nts : PN) : State ×
           | .oneRTT =>
             -- skip a packet number in order to elicit an immediate ACK
             match s.app.pop nts with
-            | none => (s, { res := .panic, evs := evs0, disc := disc0 })
+            | none => (s, { res := .panic .nonSequential, evs := evs0, disc := disc0 })
             | some (sp, pn, sk) =>
               match sp.hist.skippedPacket pn with
-              | none => ({ s with app := sp }, { res := .panic, evs := evs0, disc := disc0, skipped := sk })
+              | none => ({ s with app := sp }, { res := .panic .nonSequential, evs := evs0, disc := disc0, skipped := sk })
               | some h =>
                 ({ s with app := { sp with hist := h }, ptoMode := sendPTOAppData },
                  { evs := evs0, disc := disc0, pn := pn, skipped := sk ++ [pn] })
@@ -506,17 +533,17 @@ def State.onLossDetectionTimeout (s : State) (env : Env) (now : Time) (nts : PN)
 /-- `QueueProbePacket` -/
 def State.queueProbePacket (s : State) (lvl : Level) : State × Out :=
   match s.getSpace lvl with
-  | none => (s, { res := .panic })
+  | none => (s, { res := .panic .nilSpace })
   | some sp =>
     match sp.hist.firstOutstanding with
     | none => (s, { flag := false })
     | some (pn, p) =>
       match sp.hist.declareLost pn with
-      | .panic => (s, { res := .panic })
+      | .panic c => (s, { res := .panic c })
       | .ok h =>
         let s := s.setSpace lvl { sp with hist := h }
         match removeBif s.bytesInFlight p with
-        | none => (s, { res := .panic })
+        | none => (s, { res := .panic .negativeBytesInFlight })
         | some b => ({ s with bytesInFlight := b }, { evs := p.allFrames.map Ev.lost, flag := true })
 
 /-- `for _, p := range pnSpace.history.Packets() { h.removeFromBytesInFlight(p) }` -/
@@ -528,21 +555,21 @@ def removeBifPackets : Int → List (Option Packet) → Option Int
     | none => none
     | some b' => removeBifPackets b' rest
 
-/-- the 0-RTT branch of `DropPackets`: (history, bytesInFlight, dropped frames, panicked) -/
-def drop0RTTLoop : Nat → PN → Hist → Int → List Frame → Hist × Int × List Frame × Bool
-  | 0, _, h, bfl, disc => (h, bfl, disc, false)
+/-- the 0-RTT branch of `DropPackets`: (history, bytesInFlight, dropped frames, panic) -/
+def drop0RTTLoop : Nat → PN → Hist → Int → List Frame → Hist × Int × List Frame × Option PanicCause
+  | 0, _, h, bfl, disc => (h, bfl, disc, none)
   | n + 1, pn, h, bfl, disc =>
     match h.lookup pn with
     | none => drop0RTTLoop n (pn + 1) h bfl disc
     | some p =>
-      if p.level ≠ .zeroRTT then (h, bfl, disc, false)
+      if p.level ≠ .zeroRTT then (h, bfl, disc, none)
       else match removeBif bfl p with
-        | none => (h, bfl, disc, true)
+        | none => (h, bfl, disc, some .negativeBytesInFlight)
         | some b =>
           match h.remove pn with
           | .ok h' q => drop0RTTLoop n (pn + 1) h' b (disc ++ q.allFrames)
           | .notFound => drop0RTTLoop n (pn + 1) h b disc
-          | .panic => (h, b, disc, true)
+          | .panic c => (h, b, disc, some c)
 
 def State.afterDrop (s : State) (env : Env) (now : Time) : State :=
   ({ s with ptoCount := 0, numProbesToSend := 0, ptoMode := sendNone } : State).setTimer env now
@@ -556,22 +583,24 @@ def State.dropPackets (s : State) (env : Env) (lvl : Level) (now : Time) : State
     | none => (s, {})
     | some sp =>
       match removeBifPackets s.bytesInFlight sp.hist.packets with
-      | none => (s, { res := .panic })
+      | none => (s, { res := .panic .negativeBytesInFlight })
       | some b => (({ s with bytesInFlight := b, initial := none } : State).afterDrop env now, { disc := sp.hist.pending })
   | .handshake =>
     match s.handshake with
     | none => (s, {})
     | some sp =>
       match removeBifPackets s.bytesInFlight sp.hist.packets with
-      | none => (s, { res := .panic })
+      | none => (s, { res := .panic .negativeBytesInFlight })
       | some b =>
         (({ s with bytesInFlight := b, handshakeConfirmed := true, handshake := none } : State).afterDrop env now,
          { disc := sp.hist.pending })
   | .zeroRTT =>
     let (h, b, disc, panicked) := drop0RTTLoop s.app.hist.packets.length s.app.hist.first s.app.hist s.bytesInFlight []
     let s := { s with app := { s.app with hist := h }, bytesInFlight := b }
-    if panicked then (s, { res := .panic, disc := disc }) else (s.afterDrop env now, { disc := disc })
-  | _ => (s, { res := .panic })   -- panic("Cannot drop keys for encryption level …")
+    match panicked with
+    | some c => (s, { res := .panic c, disc := disc })
+    | none => (s.afterDrop env now, { disc := disc })
+  | _ => (s, { res := .panic .dropLevel })   -- panic("Cannot drop keys for encryption level …")
 
 /-- `ReceivedBytes` -/
 def State.receivedBytes (s : State) (env : Env) (n : Int) (t : Time) : State :=
@@ -591,28 +620,28 @@ def lostFramesOf (pk : List (Option Packet)) : List Ev :=
 def State.resetForRetry (s : State) (nts : PN) : State × Out :=
   let s := { s with bytesInFlight := 0 }
   match s.initial with
-  | none => (s, { res := .panic })
+  | none => (s, { res := .panic .nilSpace })
   | some ini =>
     let evs := lostFramesOf ini.hist.packets ++ lostFramesOf s.app.hist.packets
-    let disc := (ini.hist.probes.flatMap fun x => x.2.allFrames) ++ (s.app.hist.probes.flatMap fun x => x.2.allFrames)
+    let disc := probesFrames ini.hist.probes ++ probesFrames s.app.hist.probes
     ({ s with initial := some (Space.new ini.gen.peek false 0),
               app := Space.new s.app.gen.peek true nts,
               alarm := {}, ptoCount := 0 },
      { evs := evs, disc := disc })
 
-/-- first loop of `MigratedPath`: (history, bytesInFlight, callbacks, panicked) -/
-def migrateLoop : Nat → PN → Hist → Int → List Ev → Hist × Int × List Ev × Bool
-  | 0, _, h, bfl, evs => (h, bfl, evs, false)
+/-- first loop of `MigratedPath`: (history, bytesInFlight, callbacks, panic) -/
+def migrateLoop : Nat → PN → Hist → Int → List Ev → Hist × Int × List Ev × Option PanicCause
+  | 0, _, h, bfl, evs => (h, bfl, evs, none)
   | n + 1, pn, h, bfl, evs =>
     match h.lookup pn with
     | none => migrateLoop n (pn + 1) h bfl evs
     | some p =>
       match h.declareLost pn with
-      | .panic => (h, bfl, evs, true)
+      | .panic c => (h, bfl, evs, some c)
       | .ok h' =>
         if !p.pathProbe then
           match removeBif bfl p with
-          | none => (h', bfl, evs, true)
+          | none => (h', bfl, evs, some .negativeBytesInFlight)
           | some b =>
             if p.ackEliciting then migrateLoop n (pn + 1) h' b (evs ++ p.allFrames.map Ev.lost)
             else migrateLoop n (pn + 1) h' b evs
@@ -636,11 +665,12 @@ def migrateProbes : Nat → Nat → List (PN × Packet) → List (PN × Packet) 
 /-- `MigratedPath` -/
 def State.migratedPath (s : State) (env : Env) (now : Time) : State × Out :=
   let (h, b, evs, panicked) := migrateLoop s.app.hist.packets.length s.app.hist.first s.app.hist s.bytesInFlight []
-  if panicked then ({ s with app := { s.app with hist := h }, bytesInFlight := b }, { res := .panic, evs := evs })
-  else
+  match panicked with
+  | some c => ({ s with app := { s.app with hist := h }, bytesInFlight := b }, { res := .panic c, evs := evs })
+  | none =>
     let (pr, removed) := migrateProbes h.probes.length 0 h.probes [] []
     let s := { s with app := { s.app with hist := { h with probes := pr } }, bytesInFlight := b }
-    (s.setTimer env now, { evs := evs, disc := removed.flatMap fun x => x.2.allFrames })
+    (s.setTimer env now, { evs := evs, disc := probesFrames removed })
 
 def optLen : Option Space → Int
   | some sp => sp.hist.len
